@@ -269,6 +269,11 @@ func c20prop(r *simkit.Run) {
 			h = rb
 		case "buffer":
 			opts := []buffer.Option{buffer.MemRequestBodyBytes(8), buffer.MemResponseBodyBytes(8)}
+			// by draw a retry predicate that never holds: the buffer has no reason to replay anything (none of them
+			// reads the code of a response that chose no status: whether that is 200 or "none" is left open, see bufsim)
+			if p := rapid.SampledFrom([]string{"", "", "Attempts() > 1 && Attempts() < 3", "ResponseCode() >= 600 && Attempts() < 3", "IsNetworkError() && ResponseCode() == 200 && Attempts() < 3"}).Draw(rt, "retry-that-never-holds"); p != "" {
+				opts = append(opts, buffer.Retry(p))
+			}
 			if rapid.IntRange(0, 2).Draw(rt, "logger") == 0 {
 				opts = append(opts, buffer.Logger(simkit.SlowLogger{}), buffer.Verbose(rapid.Bool().Draw(rt, "verbose")))
 			}
